@@ -235,11 +235,74 @@ def run_roles(unit, fn, em):
             em.ok(c, txt, 'symbol is %s, parent is %s' % (kname(ks), kname(kp)), 'role')
 
 
+def leaf_sources(fn, e, depth=0, seen=None):
+    """leaf expressions a value can come from, expanding locals through their initialisers and assignments"""
+    seen = seen if seen is not None else set()
+    e = strip(e)
+    if e is None or depth > 8:
+        return []
+    if e['k'] == 'DeclRefExpr':
+        v = var_table(fn).get(e.get('d'))
+        if v is not None and v['kind'] == 'local':
+            if e['d'] in seen:
+                return []
+            seen.add(e['d'])
+            out = []
+            srcs = local_sources(fn, e['d'])
+            if not srcs:
+                return [e]
+            for s in srcs:
+                out += leaf_sources(fn, s, depth + 1, seen)
+            return out
+    if e['k'] == 'ConditionalOperator':
+        return leaf_sources(fn, e['ch'][1], depth + 1, seen) + leaf_sources(fn, e['ch'][2], depth + 1, seen)
+    return [e]
+
+
+def flag_guarded_memo(unit, fn, K):
+    """is some assignment `x = <symbol map applied>` controlled by a condition that reads a bool local (validity flag)?"""
+    from vfacts import guards
+    from .prov import assignments
+    vt = var_table(fn)
+    for lhs, rhs, an in assignments(fn):
+        if not K.translator_app(strip(rhs)):
+            continue
+        for pol, cnd, how in guards(an):
+            if pol == 'loop' or not is_node(cnd):
+                continue
+            for x in walk(cnd):
+                if x['k'] == 'DeclRefExpr' and x.get('d') in vt and vt[x['d']]['kind'] == 'local' and unit.ty(vt[x['d']]['decl']).replace('const ', '').strip() == 'bool':
+                    return True
+    return False
+
+
+def run_symbol_image(unit, fn, em):
+    """TranslateSymbols: the symbol of every rule added to the result is, on every data-flow source, an application
+    of the symbol map (a default-constructed or literal symbol is not an image)"""
+    K = Kinds(unit, fn)
+    for c in fn.calls():
+        if method_name(c) not in ('internalAddTransition', 'AddTransition') or len(c.get('args', [])) != 3:
+            continue
+        leaves = leaf_sources(fn, c['args'][1])
+        txt = unit.text(c, 90)
+        bad = [l for l in leaves if not K.translator_app(l)]
+        if not leaves:
+            em.unknown(c, txt, 'sources of the symbol not resolved', 'image')
+        elif bad and flag_guarded_memo(unit, fn, K):
+            em.unknown(c, txt, 'the symbol has a non-image initial value, but its translation is memoised under a boolean validity flag: feasibility of the initial value reaching this call is not decided', 'image')
+        elif bad:
+            em.violation(c, txt, 'the symbol of the image rule can come from `%s`, which is not an application of the symbol map: that rule is not the image of a rule of the input' % unit.text(bad[0], 40), 'image')
+        else:
+            em.ok(c, txt, 'the symbol is the symbol map applied (%d source(s))' % len(leaves), 'image')
+
+
 def run(unit, em):
     for fn in unit.functions:
         name = fn.q.split('::')[-1]
         if fn.body is not None and name in ROLE_SCOPE and 'explicit_tree' in fn.file:
             run_roles(unit, fn, em)
+        if fn.body is not None and name == 'TranslateSymbols' and 'explicit_tree_aut_core' in fn.file:
+            run_symbol_image(unit, fn, em)
         if fn.body is None or name not in SCOPE:
             continue
         if not ('explicit_' in fn.file or 'bdd_' in fn.file):
